@@ -256,7 +256,9 @@ impl BreakerBase {
     /// Return true only if current goroutine successfully accomplished the transformation.
     pub fn from_open_to_half_open(&self, ctx: &EntryContext) -> bool {
         let mut state = self.state.lock().unwrap();
-        if *state == State::Open {
+        // the retry time is checked again under the state lock: the caller saw it elapsed for the Open
+        // phase it looked at, and another thread may have probed, failed and re-opened the breaker since
+        if *state == State::Open && self.retry_timeout_arrived() {
             *state = State::HalfOpen;
             let listeners = state_change_listeners().lock().unwrap();
             for listener in &*listeners {
